@@ -347,6 +347,8 @@ class Interp:
                 v = itv.a[1][0]
                 for x in itv.a[1][1:]:
                     v = join(v, x)
+            elif isnum(itv.deg):
+                v = Val(itv.deg, None)      # elements / components of a dimensional value keep its degree
             self.env[target.id] = v
         else:
             for n in au.assigned_names(target):
@@ -378,7 +380,7 @@ class Interp:
                         self.env[var] = saved
                 else:
                     one = self.ev(value)
-                    ev = one.a[1] if one.a is not None and one.a[0] == "L" else UNK
+                    ev = one.a[1] if one.a is not None and one.a[0] == "L" else (Val(one.deg, None) if isnum(one.deg) else UNK)
                     vals = [ev] * len(names)
             else:
                 v = self.ev(value)
